@@ -79,5 +79,5 @@ def run(prog, ctx):
     ua, us, uf = judge(prog, ctx, True)
     ctx.floor("C14 fixed char arrays in lib/", len(la), 6)
     ctx.floor("C14 fixed char arrays in util/", len(ua), 10)
-    ctx.floor("C14 write sites", len(ls) + len(us), 35)
+    ctx.floor("C14 write sites", len(ls) + len(us), 25)
     ctx.floor("C14 exact-fit allocations", len(lf) + len(uf), 6)
